@@ -289,14 +289,20 @@ namespace StepClosed
 variable {Inv : Node → Prop} (h : StepClosed Inv)
 include h
 
+theorem resolveConflict_inv (s : Node) (ne : Entry) (pt : Nat) (hs : Inv s) : Inv (s.resolveConflict ne pt) := by
+  unfold Node.resolveConflict
+  dsimp only
+  inv_auto h
+
 theorem appendLoop_inv (st : AppLoop) (es : List Entry) (hs : Inv st.s) : Inv (appendLoop st es).s := by
   induction es generalizing st with
   | nil => exact hs
   | cons ne rest ih =>
     unfold appendLoop
     dsimp only
-    inv_auto h
-    all_goals (first | (apply ih; dsimp only; inv_auto h) | skip)
+    have hR : ∀ x a b, Inv x → Inv (x.resolveConflict a b) := fun x a b hx => h.resolveConflict_inv x a b hx
+    repeat' (first | inv_step h | apply hR)
+    all_goals (first | (apply ih; dsimp only; repeat' (first | inv_step h | apply hR)) | skip)
 
 theorem appendCheck_inv (s : Node) (q : AppendReq) (hs : Inv s) : Inv (s.appendCheck q) := by
   unfold Node.appendCheck
